@@ -525,4 +525,30 @@ example :
     runRes (reopen (run s [.chPass true 0 5])) [.unlockPass 0, .unlockPass 5] = [.err .wrongPass, .ok] := by
   decide
 
+/-! ## 6. the combined change with `repo-patches/fix-C05-changepassphrases-public-half-rollback.diff` -/
+
+/-- **With the fix, a refused `Wallet.ChangePassphrases` changes nothing the running wallet checks passphrases
+against** - neither the database, nor the private passphrase, nor (unlike the unfixed handler, see
+`C05_wallet_counterexample_failed_combined_change_public`) the PUBLIC passphrase in memory; a successful one is the
+unfixed handler's result.  From ANY state. -/
+theorem C05_wallet_fixed_combined_change (s : State) (po pn vo vn : Nat) :
+    ((stepChBothFixed s po pn vo vn).2 ≠ .ok →
+      (stepChBothFixed s po pn vo vn).1.disk = s.disk ∧ memPub (stepChBothFixed s po pn vo vn).1 = memPub s ∧
+      memPriv (stepChBothFixed s po pn vo vn).1 = memPriv s) ∧
+    ((stepChBothFixed s po pn vo vn).2 = .ok → stepChBothFixed s po pn vo vn = stepChBoth s po pn vo vn) := by
+  unfold stepChBothFixed
+  rw [stepChBoth_eq]
+  by_cases h1 : po = memPub s
+  · by_cases h2 : vo = memPriv s
+    · simp [h1, h2]
+    · simp only [h1, h2, if_true, if_false]
+      simp [memPub, memPubOf, memPriv, memPrivOf]
+  · simp [h1]
+
+/-- the fixed handler on the counter-example's input: the running wallet keeps accepting the old public passphrase -/
+example :
+    let s := (stepChBothFixed init 0 1 7 2).1
+    (stepChBothFixed init 0 1 7 2).2 = .err .wrongPass ∧ memPub s = 0 ∧ (step s (.chPass false 0 2)).2 = .ok := by
+  decide
+
 end WalletRestart
